@@ -7,12 +7,26 @@ them is a violation), needs_mosn_binary.
 """
 
 JOBS = {
+    "C19": [
+        {"cmd": "c19-codec", "race": False, "batches": {"quick": 4, "thorough": 16}, "timeout": {"quick": 300, "thorough": 1500}},
+        {"cmd": "c19-samples", "race": False, "batches": {"quick": 2, "thorough": 2}, "timeout": {"quick": 600, "thorough": 900}},
+        {"cmd": "c19-system", "race": False, "batches": {"quick": 4, "thorough": 16}, "timeout": {"quick": 600, "thorough": 1800}},
+    ],
+    "C20": [
+        {"cmd": "c20-scan", "race": False, "batches": {"quick": 1, "thorough": 4}, "timeout": {"quick": 300, "thorough": 900}},
+        {"cmd": "c20-race", "race": True, "batches": {"quick": 1, "thorough": 4}, "timeout": {"quick": 400, "thorough": 1500},
+         "race_anchors": ["mosn.io/mosn/pkg/configmanager.", "mosn.io/mosn/pkg/config/v2.", "mosn.io/mosn/pkg/admin/server.ConfigDump"]},
+    ],
     "C01": [
         {"cmd": "c01-codec", "race": False, "batches": {"quick": 8, "thorough": 16}, "timeout": {"quick": 600, "thorough": 2400}},
     ],
     "C03": [
         {"cmd": "c03-engine", "race": True, "batches": {"quick": 2, "thorough": 6}, "timeout": {"quick": 600, "thorough": 2400}},
         {"cmd": "c03-steer", "race": True, "batches": {"quick": 8, "thorough": 16}, "timeout": {"quick": 900, "thorough": 3600}},
+    ],
+    "C04": [
+        {"cmd": "c04-model", "race": False, "batches": {"quick": 1, "thorough": 4}, "timeout": {"quick": 300, "thorough": 1200}},
+        {"cmd": "c04-determinism", "race": True, "batches": {"quick": 1, "thorough": 3}, "timeout": {"quick": 400, "thorough": 1800}},
     ],
     "C05": [
         {"cmd": "c05-policies", "race": False, "batches": {"quick": 8, "thorough": 16}, "timeout": {"quick": 300, "thorough": 1500}},
@@ -33,6 +47,10 @@ JOBS = {
          "fatal_is_violation": True},
         {"cmd": "c08-h2", "race": False, "batches": {"quick": 4, "thorough": 12}, "timeout": {"quick": 600, "thorough": 2400},
          "fatal_is_violation": True, "mem_kb": 12000000},
+    ],
+    "C13": [
+        {"cmd": "c13-lab", "race": True, "batches": {"quick": 2, "thorough": 4}, "timeout": {"quick": 300, "thorough": 1500}},
+        {"cmd": "c13-e2e", "race": True, "batches": {"quick": 2, "thorough": 2}, "timeout": {"quick": 300, "thorough": 900}},
     ],
     "C15": [
         {"cmd": "c15-model", "race": False, "batches": {"quick": 4, "thorough": 16}, "timeout": {"quick": 300, "thorough": 900}},
